@@ -6,10 +6,20 @@
 #include <atomic>
 #include <chrono>
 
+// g_now_ms counts clock ticks.  One tick = g_us_per_tick microseconds (default 250: a quarter of a
+// millisecond, so that the library's millisecond ttls are 4 ticks and sub-millisecond arithmetic
+// is observable; a huge value makes ttls of weeks and years representable in 32-bit tick counts).
 extern std::atomic<long long> g_now_ms;
+extern std::atomic<long long> g_us_per_tick;
+constexpr long long           kTicksPerTtlUnit = 4;
+inline std::chrono::milliseconds ttl_ms(long long d)
+{
+    return std::chrono::milliseconds(d * kTicksPerTtlUnit * g_us_per_tick.load() / 1000);
+}
 
 #ifdef VERIF_DEFINE_CLOCK
 std::atomic<long long> g_now_ms{1000};
+std::atomic<long long> g_us_per_tick{250};
 namespace std
 {
 namespace chrono
@@ -18,7 +28,8 @@ inline namespace _V2
 {
 steady_clock::time_point steady_clock::now() noexcept
 {
-    return time_point(duration_cast<duration>(milliseconds(g_now_ms.load(std::memory_order_seq_cst))));
+    return time_point(duration_cast<duration>(
+        microseconds(g_now_ms.load(std::memory_order_seq_cst) * g_us_per_tick.load(std::memory_order_seq_cst))));
 }
 } // namespace _V2
 } // namespace chrono
